@@ -46,18 +46,18 @@ static bool_t derTIsValid(u32 tag)
 	{
 		u32 t;
 		u32 b;
+		size_t r;
 		// установлен старший бит в последнем (младшем) октете?
 		if (tag & 128)
 			return FALSE;
 		// пробегаем ненулевые октеты вплоть до первого (старшего)
-		for (b = tag & 127, t = b, tag >>= 8; tag > 255; tag >>= 8)
+		for (b = tag & 127, t = b, r = 7, tag >>= 8; tag > 255; tag >>= 8, r += 7)
 		{
 			// в промежуточном октете снят старший бит?
-			// будет переполнение при пересчете тега-как-значения?
-			if ((tag & 128) == 0 || (t >> 25) != 0)
+			if ((tag & 128) == 0)
 				return FALSE;
-			// пересчитать тег-как-значение
-			b = tag & 127, t = t << 7, t |= b;
+			// пересчитать тег-как-значение (b -- очередной старший разряд)
+			b = tag & 127, t |= b << r;
 		}
 		// можно кодировать одним октетом? меньшим числом октетов?
 		// в первом (старшем) октете не установлены 5 младших битов?
